@@ -8,7 +8,7 @@ import (
 	"sync"
 	"time"
 
-	"github.com/internetarchive/Zeno/internal/pkg/archiver/ratelimiter"
+	ratelimiter "github.com/internetarchive/Zeno/verifsim/sim/ratelimiterx"
 )
 
 func init() { compSims["ratelimiter"] = simRateLimiter }
@@ -29,6 +29,7 @@ type rlFailure struct {
 func simRateLimiter(cs *compState) {
 	k := cs.k
 	cs.staleRounds = 45
+	k.MaxSteps = 400000
 	capacity := float64([]int{1, 1, 2, 5, 20, 150}[cs.Draw(6)])
 	rate := []float64{0.05, 0.2, 0.5, 1, 5, 50}[cs.Draw(6)]
 	class := []string{"main", "main", "main", "streak", "evict"}[cs.Draw(5)]
@@ -84,12 +85,12 @@ func simRateLimiter(cs *compState) {
 				k.Park(actor, "comp.wait.end", host)
 				switch cs.Draw(6) {
 				case 0:
-					report(host, 0)
 					bm.OnSuccess(host)
+					report(host, 0)
 				case 1, 2:
 					st := []int{429, 403, 408, 425, 500, 503}[cs.Draw(6)]
-					report(host, st)
 					bm.AdjustOnFailure(host, st)
+					report(host, st) // recorded once the call has returned: from here on the penalty must hold
 					k.Fault(fmt.Sprintf("limiter-failure-%d", st))
 				}
 				k.Park(actor, "comp.report.end", host)
@@ -105,8 +106,8 @@ func simRateLimiter(cs *compState) {
 		cs.Go("hammer", func() {
 			for i := 0; i < n; i++ {
 				k.Park("hammer", "comp.hammer", i)
-				report(host, 429)
 				bm.AdjustOnFailure(host, 429)
+				report(host, 429)
 				if cs.Chance(1, 3) {
 					time.Sleep(time.Duration(1+cs.Draw(3)) * time.Second)
 				}
@@ -115,12 +116,14 @@ func simRateLimiter(cs *compState) {
 		})
 	}
 	// state ranges from the snapshots the limiter emits (tokens, capacity, refillRate, idealRate, penaltyUntil, failureCount)
-	k.Oracles = append(k.Oracles, &rlRangeOracle{capacity: capacity, rate: rate})
+	hist := newRLHistory()
+	k.Oracles = append(k.Oracles, &rlRangeOracle{capacity: capacity, rate: rate}, hist)
 	reason := cs.runUntilQuiet(nil)
 	if reason != "done" {
 		k.Violate("C13", "progress", "waiter-never-released", fmt.Sprintf("simulation ended with %s; still inside calls: %v", reason, cs.Blocked()))
 	}
-	// history oracles
+	// history oracles (from the limiter's own state changes)
+	releases, failures = hist.releases, hist.failures
 	for _, host := range hosts {
 		var rel []time.Duration
 		for _, r := range releases[host] {
@@ -161,6 +164,54 @@ func simRateLimiter(cs *compState) {
 	bm.Close()
 	cancel()
 }
+
+// rlHistory derives releases and failures from the limiter's own snapshots (taken under its lock),
+// so that their order is the order in which the limiter state changed, not the order in which callers returned.
+type rlHistory struct {
+	seq       int
+	hostOf    map[string]string // actor -> host of the call in progress
+	pendingSt map[string]int    // actor -> status of the adjust call in progress (0 = success)
+	releases  map[string][]rlRelease
+	failures  map[string][]rlFailure
+	streak    map[string]int
+}
+
+func newRLHistory() *rlHistory {
+	return &rlHistory{hostOf: map[string]string{}, pendingSt: map[string]int{}, releases: map[string][]rlRelease{}, failures: map[string][]rlFailure{}, streak: map[string]int{}}
+}
+func (h *rlHistory) Name() string { return "rl-history" }
+func (h *rlHistory) OnEvent(k *Kernel, ev *Event) {
+	switch ev.Point {
+	case "rl.wait.bucket", "rl.adjust.failure", "rl.adjust.success":
+		if len(ev.raw) > 0 {
+			host, _ := ev.raw[0].(string)
+			h.hostOf[ev.Actor] = host
+			h.pendingSt[ev.Actor] = 0
+			if ev.Point == "rl.adjust.failure" && len(ev.raw) > 1 {
+				h.pendingSt[ev.Actor], _ = ev.raw[1].(int)
+			}
+			if ev.Point == "rl.adjust.success" {
+				h.pendingSt[ev.Actor] = -1
+			}
+		}
+	case "rl.take":
+		h.seq++
+		host := h.hostOf[ev.Actor]
+		h.releases[host] = append(h.releases[host], rlRelease{t: time.Duration(ev.T), seq: h.seq})
+	case "rl.adjusted":
+		host := h.hostOf[ev.Actor]
+		st := h.pendingSt[ev.Actor]
+		h.seq++
+		if st == 429 || st == 403 || st == 408 || st == 425 {
+			h.streak[host]++
+			h.failures[host] = append(h.failures[host], rlFailure{seq: h.seq, t: time.Duration(ev.T), status: st, streak: h.streak[host]})
+		} else if st == -1 {
+			h.streak[host] = 0
+		}
+	}
+}
+func (h *rlHistory) OnQuiescent(k *Kernel) {}
+func (h *rlHistory) OnEnd(k *Kernel)       {}
 
 type rlRangeOracle struct {
 	capacity, rate float64
